@@ -309,18 +309,24 @@ class SqlImpl(TableImpl):
             return cls.fix_fn_types(expr, value, *args)
 
         elif isinstance(expr, CaseExpr):
-            res = sqa.case(
-                *(
-                    (
-                        cls.compile_col_expr(cond, sqa_expr),
-                        cls.compile_col_expr(val, sqa_expr),
-                    )
-                    for cond, val in expr.cases
-                ),
-                else_=(cls.compile_col_expr(expr.default_val, sqa_expr) if expr.default_val is not None else None),
+            compiled_cases = [
+                (cls.compile_col_expr(cond, sqa_expr), cls.compile_col_expr(val, sqa_expr))
+                for cond, val in expr.cases
+            ]
+            compiled_default = (
+                cls.compile_col_expr(expr.default_val, sqa_expr) if expr.default_val is not None else None
             )
+            res = sqa.case(*compiled_cases, else_=compiled_default)
 
-            if not cls.pdt_type(res.type).is_subtype(types.without_const(expr.dtype())):
+            # SQLAlchemy types the CASE by its first value. A dynamically typed database
+            # (SQLite) returns every value with its own type, e.g. an integer from an
+            # integer branch of a float-typed CASE.
+            values = [val for _, val in compiled_cases] + ([compiled_default] if compiled_default is not None else [])
+            if any(
+                not isinstance(val.type, sqa.types.NullType)
+                and not cls.pdt_type(val.type).is_subtype(types.without_const(expr.dtype()))
+                for val in [res, *values]
+            ):
                 res = res.cast(
                     cls.sqa_type(
                         Int64()
